@@ -183,7 +183,7 @@ Proof.
   { split.
     - split; [exact G|]. split; [cbn; rewrite EF; reflexivity|]. split.
       + destruct M as [F N]. split; [|exact N]. cbn. constructor; [|exact F].
-        repeat split. cbn. unfold cur_ns. rewrite EF. inversion F as [|sc f0 scs fs (V & NS & BB) F' E1 E2]; subst.
+        split; [apply vars_match_mvars|split; [|reflexivity]]. cbn. unfold cur_ns. rewrite EF. inversion F as [|sc f0 scs fs (V & NS & BB) F' E1 E2]; subst.
         unfold cur_ns_of. rewrite <- E1. exact NS.
       + split; [cbn; lia|exact D].
     - split; [reflexivity|]. exists [VNil]. split; [reflexivity|]. split; [reflexivity|discriminate]. }
@@ -287,7 +287,7 @@ Proof.
       eexists _, _, _, rest1. split; [exact S2|]. split.
       { split; [exact G2|]. split; [reflexivity|]. split.
         { split; [|rewrite nss_upd_cur; exact NS]. cbn. constructor; [|exact F'].
-          destruct FM as (V & N0 & B0). repeat split; cbn; [|exact N0|exact B0]. rewrite V. apply assoc_set_mvars. }
+          destruct FM as (V & N0 & B0). split; [cbn; apply vars_match_set; exact V|split; [exact N0|exact B0]]. }
         split; [cbn; exact B|rewrite defects_upd_cur; exact D1]. }
       split; [reflexivity|]. split; [unfold moved; destruct f1; reflexivity|]. split; [reflexivity|apply kept_all_refl].
   - assert (EX : exec_instr (IAssign n) r1 c1' = Ok (ns_set r1 (f_ns f1) n (cv v), c2)).
@@ -329,7 +329,7 @@ Proof.
   eexists _, _, _, rest1. split; [exact S2|]. split.
   { split; [exact G2|]. split; [reflexivity|]. split.
     { split; [|rewrite nss_upd_cur; exact NS]. cbn. constructor; [|exact F'].
-      destruct FM as (V & N0 & B0). repeat split; cbn; [|exact N0|exact B0]. rewrite V. apply assoc_set_mvars. }
+      destruct FM as (V & N0 & B0). split; [cbn; apply vars_match_set; exact V|split; [exact N0|exact B0]]. }
     split; [cbn; exact B|rewrite defects_upd_cur; exact D1]. }
   split; [reflexivity|]. split; [unfold moved; destruct f1; reflexivity|]. split; [reflexivity|apply kept_all_refl].
 Qed.
